@@ -13,6 +13,8 @@
 (*                      letter for the scanner)                              *)
 (*   "B"                a 20-digit literal: too big for a 64-bit integer     *)
 (*   "M"                the literal 9223372036854775807: the largest one     *)
+(*   "T"                the digit run 1500: sub-second terms that reach whole *)
+(*                      seconds ("1500ms" is 1 s + 500 ms)                    *)
 (*                                                                         *)
 (* The scanner walks the characters; at every non-digit that is not the      *)
 (* first character it parses the text since `start` as a signed integer,     *)
@@ -28,7 +30,7 @@ EXTENDS Integers, Sequences, TLC
 CONSTANT MaxLen
 CONSTANT Alphabet          \* the symbols strings are built from
 
-Digits  == {"1", "2"}
+Digits  == {"1", "2", "T"}
 BigNums == {"B", "M"}
 Signs   == {"+", "-"}
 Letters == {"n", "s", "u", "m", "h", "d", "w", "o", "y", "x"}
@@ -47,15 +49,23 @@ KnownUnit(u) == u \in DOMAIN UnitsSecs \cup DOMAIN UnitsNs \cup DOMAIN UnitsMont
 INVALID == 0 - 2000000000
 HUGE    == 2000000000
 \* the integer a text denotes: optional sign, then one or more digits
+\* a fine integer that the model's arithmetic does not follow (terms beyond ModelMax would
+\* overflow TLC's integers once multiplied by a unit): such strings end in the state "beyond",
+\* for which the property fixes totality only
+BEYOND   == 1999999999
+ModelMax == 22222
 RECURSIVE DigitsVal(_, _)
 DigitsVal(t, acc) == IF t = <<>> THEN acc
-                     ELSE DigitsVal(Tail(t), acc * 10 + (IF Head(t) = "1" THEN 1 ELSE 2))
+                     ELSE IF acc > ModelMax THEN acc            \* saturate: already beyond
+                     ELSE DigitsVal(Tail(t), IF Head(t) = "T" THEN acc * 10000 + 1500
+                                             ELSE acc * 10 + (IF Head(t) = "1" THEN 1 ELSE 2))
 NumOf(t) ==
     LET body == IF t # <<>> /\ Head(t) \in Signs THEN Tail(t) ELSE t
         neg == t # <<>> /\ Head(t) = "-"
     IN  IF body = <<>> \/ \E k \in 1..Len(body) : ~IsDigitSym(body[k]) THEN INVALID
         ELSE IF \E k \in 1..Len(body) : body[k] \in BigNums
              THEN (IF Len(body) = 1 /\ body[1] = "M" THEN HUGE ELSE INVALID)      \* out of range
+        ELSE IF DigitsVal(body, 0) > ModelMax THEN BEYOND
         ELSE IF neg THEN 0 - DigitsVal(body, 0) ELSE DigitsVal(body, 0)
 
 (* ---- the scanner machine ---------------------------------------------------------- *)
@@ -64,7 +74,7 @@ VARIABLES s,        \* the string
           pos,      \* 1-based index of the character the outer loop examines next
           start,    \* where the text of the current number begins
           acc,      \* <<months, secs, ns>> accumulated so far
-          st        \* "scan" | "ok" | "err"
+          st        \* "scan" | "ok" | "err" | "beyond"
 vars == <<s, pos, start, acc, st>>
 
 Seqs(A, n) == UNION {[1..k -> A] : k \in 0..n}
@@ -74,6 +84,14 @@ Init == s \in Seqs(Alphabet, MaxLen) /\ pos = 1 /\ start = 1 /\ acc = <<0, 0, 0>
 \* index of the first non-letter at or after k (Len(s)+1 if the letters run to the end)
 RECURSIVE RunEnd(_)
 RunEnd(k) == IF k > Len(s) \/ ~IsLetter(s[k]) THEN k ELSE RunEnd(k + 1)
+
+\* add n units of `unit` nanoseconds to <<months, secs, ns>>, carrying whole seconds (0 <= ns < 10^9
+\* is kept, so that no intermediate leaves TLC's integers)
+NSPS == 1000000000
+AddNs(a, n, unit) ==
+    LET per == NSPS \div unit                        \* units per second
+        ns1 == a[3] + (n % per) * unit               \* < 2 * 10^9
+    IN  <<a[1], a[2] + (n \div per) + (ns1 \div NSPS), ns1 % NSPS>>
 
 Step ==
     /\ st = "scan"
@@ -85,10 +103,12 @@ Step ==
             ELSE LET n == NumOf(SubSeq(s, start, pos - 1))
                      j == RunEnd(pos)
                      unit == SubSeq(s, pos, j - 1)
-                 IN  IF n \in {INVALID, HUGE} \/ unit = <<>> \/ ~KnownUnit(unit)
+                 IN  IF n = BEYOND /\ unit # <<>> /\ KnownUnit(unit)
+                     THEN st' = "beyond" /\ UNCHANGED <<pos, start, acc>>
+                     ELSE IF n \in {INVALID, HUGE, BEYOND} \/ unit = <<>> \/ ~KnownUnit(unit)
                      THEN st' = "err" /\ UNCHANGED <<pos, start, acc>>
                      ELSE /\ acc' = CASE unit \in DOMAIN UnitsSecs   -> <<acc[1], acc[2] + n * UnitsSecs[unit], acc[3]>>
-                                      [] unit \in DOMAIN UnitsNs     -> <<acc[1], acc[2], acc[3] + n * UnitsNs[unit]>>
+                                      [] unit \in DOMAIN UnitsNs     -> AddNs(acc, n, UnitsNs[unit])
                                       [] unit \in DOMAIN UnitsMonths -> <<acc[1] + n * UnitsMonths[unit], acc[2], acc[3]>>
                           \* the character that ended the unit starts the next number's text and is
                           \* not examined by the outer loop
@@ -109,7 +129,8 @@ TermEnd(t) ==
         lEnd(k) == IF k <= Len(t) /\ IsLetter(t[k]) THEN lEnd(k + 1) ELSE k
         b == dEnd(a)
         e == lEnd(b)
-    IN  IF b > a /\ e > b /\ KnownUnit(SubSeq(t, b, e - 1)) THEN <<b, e>> ELSE <<>>
+    IN  IF b > a /\ e > b /\ KnownUnit(SubSeq(t, b, e - 1)) /\ NumOf(SubSeq(t, 1, b - 1)) # BEYOND
+        THEN <<b, e>> ELSE <<>>
 
 RECURSIVE WellFormed(_)
 WellFormed(t) == IF t = <<>> THEN TRUE
@@ -122,15 +143,17 @@ Meaning(t) ==
              u == SubSeq(t, te[1], te[2] - 1)
              r == Meaning(SubSeq(t, te[2], Len(t)))
          IN  CASE u \in DOMAIN UnitsSecs   -> <<r[1], r[2] + n * UnitsSecs[u], r[3]>>
-               [] u \in DOMAIN UnitsNs     -> <<r[1], r[2], r[3] + n * UnitsNs[u]>>
+               [] u \in DOMAIN UnitsNs     -> AddNs(r, n, UnitsNs[u])
                [] u \in DOMAIN UnitsMonths -> <<r[1] + n * UnitsMonths[u], r[2], r[3]>>
 
 (* ---- properties -------------------------------------------------------------------------- *)
 
 \* C18: any string whatsoever yields a value or an error
-Total == <>(st \in {"ok", "err"})
+Total == <>(st \in {"ok", "err", "beyond"})
 \* the text handed to the integer parser is a slice of the string
 StartLeI == st = "scan" => (start >= 1 /\ start <= pos /\ pos <= Len(s) + 2)
 \* C18: every well-formed duration string parses to the sum of its terms
-Sound == (st \in {"ok", "err"} /\ WellFormed(s)) => (st = "ok" /\ acc = Meaning(s))
+Sound == (st \in {"ok", "err", "beyond"} /\ WellFormed(s)) => (st = "ok" /\ acc = Meaning(s))
+\* the sub-second digit stays a proper digit
+NsDigit == acc[3] >= 0 /\ acc[3] < NSPS
 =============================================================================
